@@ -24,7 +24,7 @@ ASSUMPTIONS = ["CPython may switch threads between any two of the instrumented o
                "end of a peer's stream is signalled the way the loop itself exits: the thread's exit event is set and recv raises TimeoutError"]
 MAG = rp.MAGIC["mainnet"]
 HANDLED = (b"version", b"verack", b"ping")
-KINDS = ["ping", "version", "verack", "inv", "addr", "unknown"]
+KINDS = ["ping", "version", "verack", "inv", "addr", "unknown", "ping", "inv", "ping0", "pingmax"]
 
 SMALL_SCENARIOS = [
     [["ping", "inv"], ["inv", "ping"]],
@@ -41,6 +41,10 @@ SMALL_SCENARIOS = [
 def build_message(kind, peer, seq):
     """-> (command, payload bytes, expected queue payload or None if handled, expected reply bytes or None)"""
     uid = peer * 1000 + seq + 1
+    if kind in ("ping0", "pingmax"):
+        nonce = 0 if kind == "ping0" else 2 ** 64 - 1
+        p = struct.pack("<Q", nonce)
+        return b"ping", p, None, rp.frame(MAG, b"pong", p)
     if kind == "ping":
         nonce = 0xABCD000000000000 + uid
         p = struct.pack("<Q", nonce)
@@ -159,7 +163,10 @@ class Run:
         for p, err in self.thread_errors:
             out.append(("thread-died", f"receive thread of peer {p} died: {err}"))
         try:
-            queue = [tuple(x) if isinstance(x, (list, tuple)) else x for x in list(self.node._msg_queue)]
+            import collections
+            q = self.node._msg_queue
+            items = list(collections.deque.__iter__(q)) if isinstance(q, collections.deque) else list(q)
+            queue = [tuple(x) if isinstance(x, (list, tuple)) else x for x in items]
         except Exception as e:
             return out + [("queue-unreadable", f"{type(e).__name__}: {e}")]
         expected = []
@@ -245,11 +252,13 @@ def gen_cases(tier, seed):
         yield "random", {"salt": rng.getrandbits(40), "peers": 2 + i % 2, "runs": 20, "gran": "line", "strategy": ["random", "pct"][i % 2]}
     for i in range(16 if q else 200):
         yield "stress", {"salt": rng.getrandbits(40), "peers": 3, "runs": 10}
+    for i in range(8 if q else 100):
+        yield "stress_long", {"salt": rng.getrandbits(40), "peers": 3, "msgs": 250, "runs": 2}
 
 
 def required(tier):
     return {"dfs.schedules": 500, "dfs.subtrees_exhausted": 40, "random.container.schedules": 5000, "random.line.schedules": 400,
-            "stress.runs": 100, "points.container": 20000, "points.line": 10000, "class.interleaved_enqueue_dequeue_window": 500,
+            "stress.runs": 100, "stress.long_messages": 5000, "points.container": 20000, "points.line": 10000, "class.interleaved_enqueue_dequeue_window": 500,
             "set:schedules": 4000}
 
 
@@ -324,6 +333,19 @@ def run_case(kind, params, ctx):
                 return
             ctx.count(f"random.{gran}.schedules")
             _report(ctx, run, trace, scenario, gran, params["strategy"])
+        return
+    if kind == "stress_long":
+        # many messages per peer: windows inside a single statement (e.g. an iteration over the shared queue) that no
+        # scheduling point separates are only reachable by real preemption
+        for r in range(params["runs"]):
+            scenario = [[rng.choice(["inv", "addr", "unknown", "ping", "inv"]) for _ in range(params["msgs"])] for _ in range(params["peers"])]
+            run = Run(scenario, None, "none", serialised=False)
+            run.execute()
+            ctx.count("stress.runs")
+            ctx.count("stress.long_messages", params["msgs"] * params["peers"])
+            ctx.seen("stressl", (params["salt"], r))
+            for key, detail in run.check():
+                ctx.violation(f"{key}/free-running", f"{params['peers']} peers x {params['msgs']} messages: {detail[:300]}")
         return
     if kind == "stress":
         for r in range(params["runs"]):
